@@ -12,8 +12,12 @@ func init() { registry["C02"] = checkC02 }
 
 // settleCallsIn: calls in fn that run the settle core (directly, or via a wrapper that returns its error).
 func settleCallsIn(l *Loaded, fn *ssa.Function, settle *ssa.Function) []*ssa.Call {
+	return settleCallsDepth(l, fn, settle, 0)
+}
+
+func settleCallsDepth(l *Loaded, fn *ssa.Function, settle *ssa.Function, depth int) []*ssa.Call {
 	var out []*ssa.Call
-	for _, call := range callsIn(fn, false) {
+	for _, call := range callsInOwn(fn) {
 		g := call.Common().StaticCallee()
 		if g == nil {
 			continue
@@ -26,22 +30,22 @@ func settleCallsIn(l *Loaded, fn *ssa.Function, settle *ssa.Function) []*ssa.Cal
 			out = append(out, cv)
 			continue
 		}
-		if fnPkgPath(g) == escrowKeeperPkg && g != fn && errResultIndex(g) >= 0 {
-			// wrapper: every success return of g is on the ok-edge of a settle call inside g
-			var inner *ssa.Call
-			for _, c2 := range callsIn(g, false) {
-				if c2.Common().StaticCallee() == settle {
-					inner, _ = c2.(*ssa.Call)
-				}
-			}
-			if inner == nil {
+		if fnPkgPath(g) == escrowKeeperPkg && g != fn && errResultIndex(g) >= 0 && depth < 3 {
+			// wrapper: every success return of g is on the ok-edge of a settling call inside g (or returns its error)
+			inners := settleCallsDepth(l, g, settle, depth+1)
+			if len(inners) == 0 {
 				continue
 			}
 			wraps := true
 			for _, r := range successReturns(g) {
-				// error result must be the settle's error
 				ev := r.Results[errResultIndex(g)]
-				if c3, _ := callOf(ev); c3 != inner && !okEdgeAt(r.Block(), inner) {
+				okRet := false
+				for _, inner := range inners {
+					if c3, _ := callOf(ev); c3 == inner || okEdgeAt(r.Block(), inner) {
+						okRet = true
+					}
+				}
+				if !okRet {
 					wraps = false
 				}
 			}
@@ -98,8 +102,18 @@ func checkC02(c *Check) {
 		ok := true
 		var bad ssa.Instruction
 		nm := 0
+		// code of the settling wrappers themselves is the settlement, not an action after it
+		inSettle := map[*ssa.Function]bool{}
+		for _, x := range scs {
+			if g := x.Call.StaticCallee(); g != nil && g != fn {
+				inSettle[g] = true
+				for _, h := range helpersOf(g) {
+					inSettle[h] = true
+				}
+			}
+		}
 		for _, call := range callsIn(fn, false) {
-			if call == ssa.CallInstruction(s) || !isMutation(call, mut) {
+			if call == ssa.CallInstruction(s) || !isMutation(call, mut) || inSettle[call.Parent()] {
 				continue
 			}
 			isSettle := false
